@@ -165,6 +165,8 @@ def damage(rng, data, fmt):
         else:
             region = [rng.below(n)]
         k = rng.pick(region)
+        if n < width:
+            return bytes(b), "intact"
         k = max(0, min(k, n - width))
         v = rng.pick(EXTREMES + [n, n - 1, n + 1, n - 52])
         big = fmt in ("amiga",) or (fmt == "elf" and n > 5 and b[5] == 2) or rng.chance(1, 6)
